@@ -208,6 +208,45 @@ Fixpoint trim_auto_names (objs : list obj) (seen : list (list byte * list byte))
       end
   end.
 
+(* TrimNames(namemap, size): names already in the caller's map keep their short name; the others get
+   the first size-2 characters (':' and '_' removed, padded with 'x') and the first free two-digit
+   identifier among the short names handed out so far (those of the map included) *)
+Definition strip_name (n : list byte) : list byte := filter (fun b => negb (beqb b x3a || beqb b x5f)) n.
+(* for m := 0; m < size-2-len(newname); m++ { newname += "x" }: the bound is re-evaluated while the name
+   grows, so only about half of the missing characters are added *)
+Fixpoint pad_loop (fuel m : nat) (name : list byte) (k : nat) : list byte :=
+  match fuel with
+  | O => name
+  | S f => if Nat.ltb m (k - length name) then pad_loop f (S m) (name ++ [x78]) k else name
+  end.
+Definition short_base (n : list byte) (k : nat) : list byte :=
+  let s := strip_name n in
+  if Nat.leb k (length s) then firstn k s else pad_loop k 0 s k.
+Definition mem_bytes (x : list byte) (l : list (list byte)) : bool := existsb (bytes_eqb x) l.
+Fixpoint find_id (fuel : nat) (base : list byte) (short : list (list byte)) (id : nat) : option nat :=
+  match fuel with
+  | O => None
+  | S f => if mem_bytes (base ++ padk 2 (N.of_nat id)) short
+           then (if Nat.leb 99 id then None else find_id f base short (S id))
+           else Some id
+  end.
+Fixpoint trim_names (objs : list obj) (m : list (list byte * list byte)) (short : list (list byte)) (k : nat)
+  : option (list (list byte)) :=
+  match objs with
+  | [] => Some []
+  | o :: t =>
+      match lassoc (oname o) m with
+      | Some nn => option_map (cons nn) (trim_names t m short k)
+      | None =>
+          let base := short_base (oname o) k in
+          match find_id 100 base short 1 with
+          | None => None
+          | Some id => let nn := base ++ padk 2 (N.of_nat id) in
+                       option_map (cons nn) (trim_names t (m ++ [(oname o, nn)]) (nn :: short) k)
+          end
+      end
+  end.
+
 Definition set_names (objs : list obj) (names : list (list byte)) : list obj :=
   map (fun on => (oid (fst on), (snd on, oseq (fst on)))) (combine objs names).
 
@@ -247,6 +286,7 @@ Inductive cop :=
 | OpRenameLit (old new : list byte)
 | OpCleanNames
 | OpTrimAuto (curid : N)
+| OpTrim (m : list (list byte * list byte)) (size : Z)
 | OpSort
 | OpShuffle (draws : list nat)
 | OpFilterLength (mn mx : Z)
@@ -293,6 +333,15 @@ Definition step (st : cstate) (op : cop) : cstate * bool :=
       let nn := trim_auto_names (c_objs st) [] curid (ndigits (N.of_nat (length (c_objs st)))) in
       let objs := set_names (c_objs st) nn in
       (set_objs st objs (reindex objs), true)
+  | OpTrim m size =>
+      let n := Z.of_nat (length (c_objs st)) in
+      (* math.Pow10(size-2) < float64(n) *)
+      if (if (size - 2 <? 0)%Z then (0 <? n)%Z else (10 ^ (size - 2) <? n)%Z) then (st, false)
+      else
+        match trim_names (c_objs st) m (map snd m) (Z.to_nat (size - 2)) with
+        | Some nn => let objs := set_names (c_objs st) nn in (set_objs st objs (reindex objs), true)
+        | None => (st, false)    (* more than 99 identical short names: not generated by the harness *)
+        end
   | OpSort => (set_objs st (sort_objs (c_objs st)) (c_index st), true)
   | OpShuffle draws => (set_objs st (shuffle_objs draws (length (c_objs st)) (c_objs st)) (c_index st), true)
   | OpFilterLength mn mx =>
